@@ -43,15 +43,15 @@ package task
 //@ func (*Executor).areTaskRequiredVarsSet
 //@   sweep                                                          [C16]
 //@   init anyMissing := false
-//@   site (*Vars).Get#1 requires arg0 == t.Vars && arg1 == t.Requires.Vars[$i].Name                  [C13]
+//@   site (*Vars).Get#0 requires arg0 == t.Vars && arg1 == t.Requires.Vars[$i].Name                  [C13]
 //@   site (*Vars).Get#1 ghost anyMissing := anyMissing || !result.1
 //@   loop 1 invariant anyMissing ==> len(missingVars) > 0                                              [C13]
 //@   ensures result == nil ==> !anyMissing                                                             [C13]
 //@ func (*Executor).areTaskRequiredVarsAllowedValuesSet
 //@   sweep                                                          [C16]
 //@   init anyBad := false
-//@   site (*Vars).Get#1 requires arg0 == t.Vars && arg1 == t.Requires.Vars[$i].Name                  [C13]
-//@   site slices.Contains#1 requires arg0 == t.Requires.Vars[$i].Enum                                [C13]
+//@   site (*Vars).Get#0 requires arg0 == t.Vars && arg1 == t.Requires.Vars[$i].Name                  [C13]
+//@   site slices.Contains#0 requires arg0 == t.Requires.Vars[$i].Enum                                [C13]
 //@   site slices.Contains#1 ghost anyBad := anyBad || !result
 //@   loop 1 invariant anyBad ==> len(notAllowedValuesVars) > 0                                         [C13]
 //@   ensures result == nil ==> !anyBad                                                                 [C13]
@@ -74,7 +74,7 @@ package task
 
 //@ func (*Executor).runDeps$1
 //@   requires tok == 0 -- a goroutine started by errgroup.Go holds no concurrency slot
-//@   site RunTask#1 requires arg2.Task == d.Task && arg2.Vars == d.Vars && arg2.Silent == d.Silent && arg2.Indirect    [C01,C02]
+//@   site RunTask#0 requires arg2.Task == d.Task && arg2.Vars == d.Vars && arg2.Silent == d.Silent && arg2.Indirect    [C01,C02]
 //@   site RunTask#1 ghost set depCallOK(d) if result == nil
 //@   ensures result == nil ==> depCallOK(d)                                                            [C01,C03]
 //@   site RunTask#1 ghost depErr := result
@@ -86,7 +86,7 @@ package task
 //@   blocks
 //@   requires semLimited() ==> tok == 1
 //@   ensures  tok == old(tok)                                                                          [C07]
-//@   site (*Group).Go#1 requires clofn(arg1) == fn("(*Executor).runDeps$1")
+//@   site (*Group).Go#0 requires clofn(arg1) == fn("(*Executor).runDeps$1")
 //@                            && captured(arg1, "(*Executor).runDeps$1", "d") == t.Deps[$i]              [C01]
 //@   site (*Group).Go#1 ghost depClo(t, $i) := arg1
 //@   loop 1 invariant forall j {depClo(t, j)} :: 0 <= j && j < $i ==> inGroup(g, depClo(t, j))
@@ -116,7 +116,7 @@ package task
 //@   entry tok == 0     -- API entry point: the goroutine that starts an invocation holds no concurrency slot
 //@   init anyInternal := false
 //@   init nVetted := 0
-//@   site (*Executor).GetTask#1 requires arg1 == calls[$i] && nVetted == $i                                 [C13]
+//@   site (*Executor).GetTask#0 requires arg1 == calls[$i] && nVetted == $i                                 [C13]
 //@   site (*Executor).GetTask#1 ghost anyInternal := anyInternal || (result.1 == nil && result.0.Internal)
 //@   site (*Executor).GetTask#1 ghost nVetted := nVetted + 1
 //@   loop 1 invariant !anyInternal && nVetted == $i                                                         [C13]
@@ -222,13 +222,13 @@ package task
 //@   site (*Executor).areTaskRequiredVarsSet#1 ghost set requiredOK(call) if result == nil
 //@   site (*Executor).areTaskRequiredVarsAllowedValuesSet#1 ghost set enumOK(call) if result == nil
 //@   site AddInt32#1 ghost set countOK(call) if result < 1000
-//@   site (*Executor).startExecution#1 requires platformOK(call) && requiredOK(call) && enumOK(call)  [C13]
-//@   site (*Executor).startExecution#1 requires e.Watch || countOK(call)                              [C07]
+//@   site (*Executor).startExecution#0 requires platformOK(call) && requiredOK(call) && enumOK(call)  [C13]
+//@   site (*Executor).startExecution#0 requires e.Watch || countOK(call)                              [C07]
 // the deduplication key is computed from the FULLY compiled task (dynamic variables resolved), and the body
 // that runs is the one of this call
-//@   site (*Executor).CompiledTask#1 requires arg1 == call                                             [C06,C11]
+//@   site (*Executor).CompiledTask#0 requires arg1 == call                                             [C06,C11]
 //@   site (*Executor).CompiledTask#1 ghost fullTask := result.0
-//@   site (*Executor).startExecution#1 requires arg2 == fullTask && arg1 == ctx                        [C06,C03]
+//@   site (*Executor).startExecution#0 requires arg2 == fullTask && arg1 == ctx                        [C06,C03]
 
 //@ ghost var promptDeclined bool scratch
 //@ ghost var depsErr error scratch
@@ -254,15 +254,15 @@ package task
 //@   loop 1 invariant forall k {promptOK(call, k)} :: 0 <= k && k < $i ==> t.Prompt[k] == "" || e.Dry || promptOK(call, k)   [C13]
 //@   loop 1 invariant tok == old(tok)                                                                  [C07]
 //@   loop 2 invariant tok == old(tok)                                                                  [C07]
-//@   site (*Executor).runCommand#1 requires
+//@   site (*Executor).runCommand#0 requires
 //@        forall j {t.Deps[j]} :: 0 <= j && j < len(t.Deps) ==> depCallOK(t.Deps[j])                   [C01]
-//@   site (*Executor).runCommand#1 requires platformOK(call) && requiredOK(call) && enumOK(call)      [C13]
-//@   site (*Executor).runCommand#1 requires precondsOK(call)                                          [C13]
-//@   site (*Executor).runCommand#1 requires
+//@   site (*Executor).runCommand#0 requires platformOK(call) && requiredOK(call) && enumOK(call)      [C13]
+//@   site (*Executor).runCommand#0 requires precondsOK(call)                                          [C13]
+//@   site (*Executor).runCommand#0 requires
 //@        forall k {promptOK(call, k)} :: 0 <= k && k < len(t.Prompt) ==> t.Prompt[k] == "" || e.Dry || promptOK(call, k) [C13]
-//@   site (*Executor).runCommand#1 requires forall j {cmdSettled(t, j)} :: 0 <= j && j < $i && !t.Cmds[j].Defer ==>
+//@   site (*Executor).runCommand#0 requires forall j {cmdSettled(t, j)} :: 0 <= j && j < $i && !t.Cmds[j].Defer ==>
 //@        cmdSettled(t, j)                                                                             [C02]
-//@   site (*Executor).runCommand#1 requires forall j {cmdOK(t, j)} :: 0 <= j && j < $i && !t.Cmds[j].Defer ==>
+//@   site (*Executor).runCommand#0 requires forall j {cmdOK(t, j)} :: 0 <= j && j < $i && !t.Cmds[j].Defer ==>
 //@        cmdOK(t, j) || (t.IgnoreError && cmdExitFail(t, j))                                          [C03,C13,C07]
 //@   site (*Executor).runCommand#1 ghost set cmdSettled(t, $i)
 //@   site (*Executor).runCommand#1 ghost set cmdOK(t, $i) if result == nil
@@ -270,9 +270,9 @@ package task
 //@   site (*Executor).runDeferred#1 ghost set deferRegistered(t, $i)
 // a deferred command is a command of the task: it is only registered (and so can only ever start) once the
 // dependencies have finished successfully and the guards have passed
-//@   site (*Executor).runDeferred#1 requires
+//@   site (*Executor).runDeferred#0 requires
 //@        forall j {t.Deps[j]} :: 0 <= j && j < len(t.Deps) ==> depCallOK(t.Deps[j])                   [C01]
-//@   site (*Executor).runDeferred#1 requires platformOK(call) && requiredOK(call) && enumOK(call) && precondsOK(call)   [C13]
+//@   site (*Executor).runDeferred#0 requires platformOK(call) && requiredOK(call) && enumOK(call) && precondsOK(call)   [C13]
 //@   loop 2 invariant forall j {cmdSettled(t, j)} :: 0 <= j && j < $i && !t.Cmds[j].Defer ==> cmdSettled(t, j)   [C02]
 //@   loop 2 invariant forall j {cmdOK(t, j)} :: 0 <= j && j < $i && !t.Cmds[j].Defer ==>
 //@        cmdOK(t, j) || (t.IgnoreError && cmdExitFail(t, j))                                          [C03,C13,C07]
@@ -305,19 +305,19 @@ package task
 //@   blocks
 //@   requires semLimited() ==> tok == 1
 //@   ensures  tok == old(tok)                                                                          [C07]
-//@   site (*Executor).RunTask#1 requires arg2.Task == t.Cmds[i].Task && arg2.Vars == t.Cmds[i].Vars
+//@   site (*Executor).RunTask#0 requires arg2.Task == t.Cmds[i].Task && arg2.Vars == t.Cmds[i].Vars
 //@        && arg2.Silent == t.Cmds[i].Silent && arg2.Indirect                                          [C02]
 //@   init shFailed := false
 //@   init shExit := false
 //@   init nestFailed := false
 //@   site (*Executor).RunTask#1 ghost nestFailed := result != nil
-//@   site execext.RunCommand#1 requires !e.Dry                                                         [C12]
-//@   site execext.RunCommand#1 requires semLimited() ==> tok == 1                                      [C07]
-//@   site execext.RunCommand#1 requires arg1.Command == t.Cmds[i].Cmd && arg1.Dir == t.Dir             [C02]
+//@   site execext.RunCommand#0 requires !e.Dry                                                         [C12]
+//@   site execext.RunCommand#0 requires semLimited() ==> tok == 1                                      [C07]
+//@   site execext.RunCommand#0 requires arg1.Command == t.Cmds[i].Cmd && arg1.Dir == t.Dir             [C02]
 //@   site execext.RunCommand#1 ghost shFailed := result != nil
 //@   init shErr := nil
 //@   site execext.RunCommand#1 ghost shErr := result
-//@   site result.2:(Output).WrapWriter#1 requires arg0 == shErr     -- the closer learns how the command ended         [C17]
+//@   site result.2:(Output).WrapWriter#0 requires arg0 == shErr     -- the closer learns how the command ended         [C17]
 //@   site IsExitStatus#1 ghost shExit := result.1
 //@   ensures result == nil && shFailed ==> shExit && t.Cmds[i].IgnoreError                             [C03]
 // ... and ignore_error on the command covers every exit status (1..255) of that command
@@ -335,12 +335,12 @@ package task
 //@   requires semLimited() ==> tok == 1
 //@   ensures  tok == old(tok)                                                                          [C07]
 //@   site context.Background#1 ghost bgCtx := result
-//@   site context.WithCancel#1 requires arg0 == bgCtx                                                  [C14]
+//@   site context.WithCancel#0 requires arg0 == bgCtx                                                  [C14]
 //@   site context.WithCancel#1 ghost ownCtx := result.0
-//@   site (*Executor).runCommand#1 requires arg1 == ownCtx && arg2 == t && arg3 == call && arg4 == i   [C14]
+//@   site (*Executor).runCommand#0 requires arg1 == ownCtx && arg2 == t && arg3 == call && arg4 == i   [C14]
 // the text that is rendered (now, with EXIT_CODE) and then run is that of entry i of the COMPILED task - the list
 // the index refers to (loops have been unrolled and null entries dropped there, not in the definition)
-//@   site templater.ReplaceWithExtra#1 requires arg0 == t.Cmds[i].Cmd                                   [C14]
+//@   site templater.ReplaceWithExtra#0 requires arg0 == t.Cmds[i].Cmd                                   [C14]
 
 //@ func (*Executor).areTaskPreconditionsMet
 //@   modifies heap, fs_exists, fs_ver
@@ -387,7 +387,7 @@ package task
 //@   site execute#2 ghost execErr := result
 //@   site recv#1 ghost set execFinished(h)   -- Done() of the context registered for h is closed only by the registering call, after its execution returned
 //@   ensures result == nil && h != "" ==> execFinished(h)   -- nobody proceeds while the one real execution is still running   [C01,C06,C02]
-//@   site context.WithCancelCause#1 requires arg0 == ctx      -- the shared execution stays cancellable by its first caller    [C03]
+//@   site context.WithCancelCause#0 requires arg0 == ctx      -- the shared execution stays cancellable by its first caller    [C03]
 //@   site execute#1 requires arg0 == ctx                                                                  [C03]
 //@   site execute#2 requires arg0 == runCtx                                                               [C03]
 //@   site context.WithCancelCause#1 ghost runCtx := result.0
@@ -397,9 +397,9 @@ package task
 //@   site result.1:context.WithCancelCause#2 requires arg0 == execErr && arg0 != nil                   [C01,C06,C03,C13]
 // RELY of a later caller (what the guarantee above gives every thread): the cause it reads from the context
 // registered for h is "succeeded" only if that execution returned nil.
-//@   site context.Cause#1 requires arg0 == otherExecutionCtx                                           [C01,C06,C13]
+//@   site context.Cause#0 requires arg0 == otherExecutionCtx                                           [C01,C06,C13]
 //@   site context.Cause#1 ghost set execOK(h) if result == errExecutionSucceeded
-//@   site (Context).Done#1 requires recv == otherExecutionCtx && ok && h != ""                        [C01,C06,C13]
+//@   site (Context).Done#0 requires recv == otherExecutionCtx && ok && h != ""                        [C01,C06,C13]
 //@   site recv#1 requires ok    -- a later caller blocks until the registered execution is done       [C01,C06,C13]
 //@   site recv#1 requires semLimited() ==> tok == 0                                                    [C07]
 //@   site recv#1 requires notAncestor(h)                                                               [C07]
@@ -439,27 +439,27 @@ package task
 //@ func (*Executor).RunTask$1
 //@   init fpTouched := false
 //@   init attempted := false
-//@   site fingerprint.WithDry#1 requires arg0 == e.Dry                                                [C12,C04]
-//@   site fingerprint.WithMethod#1 requires arg0 == (t.Method != "" ? t.Method : e.Taskfile.Method)  [C04]
-//@   site fingerprint.WithTempDir#1 requires arg0 == e.TempDir.Fingerprint                            [C04]
+//@   site fingerprint.WithDry#0 requires arg0 == e.Dry                                                [C12,C04]
+//@   site fingerprint.WithMethod#0 requires arg0 == (t.Method != "" ? t.Method : e.Taskfile.Method)  [C04]
+//@   site fingerprint.WithTempDir#0 requires arg0 == e.TempDir.Fingerprint                            [C04]
 //@   site fingerprint.IsTaskUpToDate#1 ghost fpTouched := !e.Dry
 //@   site (*Executor).runCommand#1 ghost attempted := true
 //@   site (*Executor).statusOnError ghost set cleaned(t)
-//@   site (*Executor).mkdir#1 requires !e.Dry                                                         [C12]
+//@   site (*Executor).mkdir#0 requires !e.Dry                                                         [C12]
 //@   ensures result != nil && fpTouched ==> cleaned(t)                                                [C04,C05]
 //@   ensures result != nil && attempted ==> cleaned(t)   -- a failed attempt (forced or not, exit status or not) invalidates the record   [C04,C05]
 
 //@ func (*Executor).statusOnError
-//@   site fingerprint.NewSourcesChecker#1 requires arg0 == (t.Method != "" ? t.Method : e.Taskfile.Method)
+//@   site fingerprint.NewSourcesChecker#0 requires arg0 == (t.Method != "" ? t.Method : e.Taskfile.Method)
 //@        && arg1 == e.TempDir.Fingerprint && arg2 == e.Dry                                           [C04,C05,C12]
 
 //@ func (*Executor).Status
 
-//@   site fingerprint.WithDry#1 requires arg0 == e.Dry                                                [C12]
+//@   site fingerprint.WithDry#0 requires arg0 == e.Dry                                                [C12]
 
 // Listing tasks for an editor (--list --json) is a query: it must never write fingerprints.
 //@ func (*Executor).ToEditorOutput$1
-//@   site fingerprint.WithDry#1 requires arg0                                                         [C12,C04,C05]
+//@   site fingerprint.WithDry#0 requires arg0                                                         [C12,C04,C05]
 
 // Task lookup (C15 examines it); frame only here: it may attach MATCH to the call's variables.
 //@ func (*Executor).GetTask
@@ -485,10 +485,10 @@ package task
 //@   nilable call result
 //@   init exactHit := false
 //@   init exactTask := nil
-//@   site (*Tasks).Get#1 requires arg1 == call.Task                       -- the exact name is tried first              [C15]
+//@   site (*Tasks).Get#0 requires arg1 == call.Task                       -- the exact name is tried first              [C15]
 //@   site (*Tasks).Get#1 ghost exactHit := result.1
 //@   site (*Tasks).Get#1 ghost exactTask := result.0
-//@   site (*Tasks).All#1 requires arg1 == nil                             -- wildcards in Taskfile order                [C15]
+//@   site (*Tasks).All#0 requires arg1 == nil                             -- wildcards in Taskfile order                [C15]
 //@   ensures call != nil && exactHit ==> len(result) == 1 && result[0].Task == exactTask                               [C15]
 
 // Whether the call limit applies (it does not in watch mode) is an option of the invocation (--watch): looking
@@ -499,13 +499,13 @@ package task
 //@   ensures e.Watch == old(e.Watch)                                                                                   [C07]
 // The spelling model is built once, by Setup, before any task runs; the (concurrent) lookups only read it.
 //@ func (*Executor).Setup
-//@   site (*Executor).setupFuzzyModel#1 requires arg0 == e                                                             [C18,C15]
+//@   site (*Executor).setupFuzzyModel#0 requires arg0 == e                                                             [C18,C15]
 //@ func (*Executor).GetTask
 //@   nosite (*Executor).setupFuzzyModel                                                                                [C18]
 //@   init consulted := false
 //@   init matchedAny := false
 //@   init firstMatch := nil
-//@   site (*Executor).FindMatchingTasks#1 requires arg1 == call                                                        [C15]
+//@   site (*Executor).FindMatchingTasks#0 requires arg1 == call                                                        [C15]
 //@   site (*Executor).FindMatchingTasks#1 ghost consulted := true
 //@   site (*Executor).FindMatchingTasks#1 ghost matchedAny := len(result) > 0
 //@   site (*Executor).FindMatchingTasks#1 ghost firstMatch := result[0].Task
@@ -517,8 +517,8 @@ package task
 // Suggestions for unknown names come from a model trained on every task name and alias.
 // the words the model learns are the task NAMES (the keys of the task table) and the aliases
 //@ func (*Executor).setupFuzzyModel$1
-//@   site append#1 requires arg1[0] == name                                                                            [C15]
-//@   site slices.Concat#1 requires arg0[1] == task.Aliases                                                             [C15]
+//@   site append#0 requires arg1[0] == name                                                                            [C15]
+//@   site slices.Concat#0 requires arg0[1] == task.Aliases                                                             [C15]
 //@ func (*Executor).setupFuzzyModel
 //@   ensures e.Taskfile != nil ==> e.fuzzyModel != nil                                                                 [C15]
 
@@ -549,7 +549,7 @@ package task
 //@ ghost var evalFailed bool scratch
 //@ ghost var dynCtx context.Context scratch
 //@ func (*Compiler).HandleDynamicVar
-//@   site execext.RunCommand#1 requires held(c.muDynamicCache)                                                 [C11,C18]
+//@   site execext.RunCommand#0 requires held(c.muDynamicCache)                                                 [C11,C18]
 // only the output of a SUCCESSFUL evaluation is remembered (a failure in one task's directory must not become
 // the value another task gets for the same command text)
 //@   init evalFailed := false
@@ -557,14 +557,14 @@ package task
 //@   site mapstore#0 requires !evalFailed || arg0 != c.dynamicCache                                            [C11]
 // the result is remembered under the command AND the directory it ran in: tasks with different dirs never get
 // each other's value
-//@   site execext.RunCommand#1 requires arg1.Command == key.sh && arg1.Dir == key.dir                          [C11]
+//@   site execext.RunCommand#0 requires arg1.Command == key.sh && arg1.Dir == key.dir                          [C11]
 // the command of a dynamic variable runs under a context of its own, never under the (possibly cancelled)
 // context of the run: a deferred task call is compiled - its sh: variables evaluated - after a sibling's failure
 // has cancelled everything else, and what it evaluates to does not depend on who was cancelled when
 //@   init dynCtx := nil
 //@   site context.Background#1 ghost dynCtx := result
-//@   site execext.RunCommand#1 requires arg0 == dynCtx                                                         [C14,C11]
-//@   site mapstore#1 requires arg1.sh == key.sh && arg1.dir == key.dir                                         [C11]
+//@   site execext.RunCommand#0 requires arg0 == dynCtx                                                         [C14,C11]
+//@   site mapstore#0 requires arg1.sh == key.sh && arg1.dir == key.dir                                         [C11]
 
 // ---- C11: compiling a task builds a fresh object graph ---------------------------------------------------
 // Every command, dependency and precondition put into the compiled task is a copy made during this call (so
@@ -576,7 +576,7 @@ package task
 // name has not been taken yet
 //@   site (*Vars).Get#1 ghost dotSeen := result.1
 //@   site (*Vars).Set#1 requires !dotSeen                                                                      [C10]
-//@   site godotenv.Read#1 requires len(arg0) == 1           -- one file at a time, in the order they are listed   [C10]
+//@   site godotenv.Read#0 requires len(arg0) == 1           -- one file at a time, in the order they are listed   [C10]
 //@   site append requires fresh(arg1[0])                                                                       [C11,C18,C14]
 // every command put into the compiled task (one per loop item, deferred, plain) keeps the attributes that
 // decide how its failure and its output are treated
@@ -629,12 +629,12 @@ package task
 //@ ghost var layer int scratch
 // A value marked live (CLI_ARGS: the arguments after --) is data: it never goes through the template engine.
 //@ func (*Compiler).getVariables$1$1
-//@   site templater.ReplaceVar#1 requires arg0.Live == nil                                                     [C19]
+//@   site templater.ReplaceVar#0 requires arg0.Live == nil                                                     [C19]
 //@ func (*Compiler).getVariables
 //@   init layer := 0
-//@   site env.GetEnviron#1 requires layer == 0                                                                [C10]
+//@   site env.GetEnviron#0 requires layer == 0                                                                [C10]
 //@   site env.GetEnviron#1 ghost layer := 1
-//@   site (*Compiler).getSpecialVars#1 requires layer == 1                                                    [C10]
+//@   site (*Compiler).getSpecialVars#0 requires layer == 1                                                    [C10]
 //@   site (*Compiler).getSpecialVars#1 ghost layer := 2
 // getVariables itself writes the special variables and nothing else: every later layer goes through the range
 // function, so a special variable that a Taskfile, the command line or a call redefines stays redefined
